@@ -1,6 +1,27 @@
-HOOK_COMMITS = []
+HOOK_COMMITS = ['0398903']
 NA = {}
-chk('C11', 'model_checking',
+MC = 'model_checking'
+chk('C08', MC,
+    'Bounded symbolic model checking (CBMC) of one out-of-range/in-range access on each engine: the real vm_core_execute for the array/struct/union/tuple opcodes, every accessor of runtime/dyn_array.c, and eval.c\'s array builtins, with the index ranging over ALL int64 values and array lengths 0..4; asserts that an out-of-range operation never returns normally and changes nothing.',
+    'Arrays up to length 4; native assert() and evaluator exit() are taken as process termination; generated-C wrappers are thin calls (read, not encoded); whole programs are covered by the program family of C01/C04 only.',
+    'CBMC bounded model checking of real VM step / dyn_array / evaluator builtins, symbolic index', 'DESIGN.md 4/C08')
+chk('C10', MC,
+    'CBMC on the real nvm_format.c: for each module shape (built through the public nvm_add_* API) and ALL contents, deserialize(serialize(m)) == m field by field and serialize is idempotent byte for byte.',
+    'Module shapes bounded (<=3 strings, <=2 functions/imports/debug entries, <=6 code bytes); CRC modelled as uninterpreted function; exit status of the three runners: see evidence outside_claim.',
+    'CBMC bounded model checking of serialize/deserialize round trip, symbolic contents', 'DESIGN.md 4/C10')
+chk('C11', MC,
     'Bounded symbolic model checking (CBMC) of the real isa.c: for each of the 256 opcode bytes, decode(encode(i))=i and encode(decode(b))=b, truncation and undefined-byte refusal, no stray writes, for ALL operand payloads, buffer contents and lengths 0..32. The instruction space is finite, so this is complete for the binary codec.',
     'Opcode set = NanoOpcode enum of isa.h; operand widths per isa.h comments. The textual assemble/disassemble round trip is covered only as far as stated in evidence (printf/strtol have no solver semantics).',
     'CBMC bounded model checking of isa_encode/isa_decode per opcode byte, symbolic operands', 'DESIGN.md 4/C11')
+chk('C12', MC,
+    'CBMC on the real nvm_format.c: wrong magic/version/stored checksum refused for every xor mask; writer stores crc of the final body; CRC-32 detection of every burst <= 32 bits in a body of ANY length by induction from lemmas proved on the real nvm_crc32 (table identity, GF(2)-linearity, non-zero difference state for all 2^32-1 bursts at all bit offsets, injective per-byte update, definitional equality up to the length bound); every truncation length and appended tail refused structurally; accepted => all sections inside the file and consumed exactly.',
+    'Structural jobs use an uninterpreted CRC (any value); file shapes bounded (<= 95 bytes); the induction over body length is a pen-and-paper two-line argument over solver-proved lemmas (written in evidence.explanation).',
+    'CBMC bounded model checking + solver-proved CRC algebra lemmas', 'DESIGN.md 4/C12')
+chk('C13', MC,
+    'CBMC on the real loader (arbitrary files incl. well-checksummed hostile ones), verifier (memory safety + meaning of acceptance) and VM (every opcode, one instruction from a constructed state incl. ill-typed operands and hostile frame bases): no out-of-bounds/use-after-free/double free/division overflow, bounded termination, trap or invariant-satisfying post-state.',
+    'One inductive VM step, not multi-instruction runs; state shapes bounded (stack<=8, 2-field containers, arrays len 2); wrap-around of + - * on language ints assumed (gcc -O0); stack growth by realloc outside.',
+    'CBMC bounded model checking: arbitrary-file loader, verifier meaning, per-opcode VM step', 'DESIGN.md 4/C13')
+chk('C14', MC,
+    'CBMC on the real vm.c/heap.c: for every opcode and operand-kind tuple (incl. aliasing and containers of strings), one instruction from any state satisfying the reference-count invariant preserves it: nothing referenced is freed, ref_count >= (and, for non-trapping steps, ==) in-degree + hidden references, nothing freed twice, new reachable objects are live.',
+    'One inductive step per opcode from constructed pre-states (<= 8 objects, nesting container->string); free() replaced by a ghost recorder; the whole-program churn bound is decided only through the per-instruction no-leak equality.',
+    'CBMC bounded model checking of one VM step with a ghost-free reference audit', 'DESIGN.md 4/C14')
